@@ -162,7 +162,11 @@ pub struct State {
 
 impl State {
     pub fn new() -> Self {
-        let mut s = State { xot: Xot::new(), ns: Table::new("namespace"), pf: Table::new("prefix"), nm: Table::new("name") };
+        // every other store is made by `Xot::default()`: the same store by the crate's documentation
+        // (seed C08j: a derived Default with empty tables)
+        static COUNT: std::sync::atomic::AtomicUsize = std::sync::atomic::AtomicUsize::new(0);
+        let xot = if COUNT.fetch_add(1, std::sync::atomic::Ordering::Relaxed) % 2 == 1 { Xot::default() } else { Xot::new() };
+        let mut s = State { xot, ns: Table::new("namespace"), pf: Table::new("prefix"), nm: Table::new("name") };
         // what Xot::new is documented to contain; verified against the real Xot by `builtins`
         for (v, n) in [("", 0usize), (XML_NS, 1)] {
             s.ns.truth.insert(v.to_string(), n);
